@@ -54,11 +54,6 @@ package raft
 //@   opts trusted
 //@   modifies nothing
 
-//@ func (rw *raftWrapper) Peers
-//@   opts trusted
-//@   ensures err != nil ==> res == nil
-//@   modifies nothing
-
 // ---- C01/C17: an operation is acknowledged only after the leader accepted or committed it ----
 //@ func (cc *Consensus) redirectToLeader
 //@   property C01 C17
@@ -325,3 +320,49 @@ package raft
 //@   opts own
 //@   ensures [ends-shut-down] cc.shutdown
 //@   modifies *
+
+// ---- C15: loading a section = the defaults, then the section applied on top of them (a setting the section does
+// not carry gets its default, not whatever the object held before) ----
+//@ ghost var defaultsN int
+//@ func (cfg *Config) Default
+//@   opts trusted
+//@   counts defaultsN when true
+//@   ensures cfg.RaftConfig != nil
+//@   modifies heap(Config)
+//@ func (cfg *Config) LoadJSON
+//@   property C15
+//@   requires cfg != nil
+//@   at_call Config.applyJSONConfig assert [defaults-first] defaultsN == old(defaultsN) + 1
+//@   modifies *
+
+// ---- C17: "every remaining member reports the same peerset": what a member reports is exactly the server list of
+// its Raft configuration - every server, once, decoded from its Raft server ID ----
+//@ func (rw *raftWrapper) Peers
+//@   property C17
+//@   ensures err != nil ==> res == nil
+//@   ensures [every-server-listed] err == nil ==> len(res) == len(rng1)
+//@   loop 1 (range configFuture.Configuration().Servers)
+//@     invariant len(ids) == idx1
+//@   modifies nothing
+
+//@ extern sort.Strings(x)
+//@   ensures len(x) == old(len(x))
+//@   modifies nothing
+//@ func (cc *Consensus) Peers
+//@   property C17 C18
+//@   opts own
+//@   ensures [one-entry-per-raft-server] err == nil ==> len(res) == len(raftPeers)
+//@   ensures [shut-down-reports-nothing] cc.shutdown ==> err != nil
+//@   loop 1 (range raftPeers)
+//@     invariant len(peers) == idx1
+//@   modifies nothing
+
+// "a removed peer ... discards its consensus data": the data is cleaned (through the backup rotation) only for a
+// component that has been shut down; a running one refuses
+//@ func (cc *Consensus) Clean
+//@   property C17 C14 C18
+//@   opts own
+//@   requires cc.config != nil && cc.config.BackupsRotate >= 1 && backupNamesDistinct()
+//@   at_call CleanupRaft assert [only-when-shut-down] cc.shutdown && cfg == cc.config
+//@   ensures [running-component-refuses] !cc.shutdown ==> err != nil && fs == old(fs) && fsContent == old(fsContent)
+//@   modifies fs, fsContent, heap(dataBackupHelper)
